@@ -632,3 +632,184 @@ class columns_pack:
             yield "columns-error-only-for-the-natural-size", len(a.size) == 0
         else:
             yield "widget-error-only-for-a-flow-size-of-a-columns-that-does-not-report-flow", both(len(a.size) == 1, neg(_has(columns_sizing.spec_value(old), FLOW)))
+
+
+# ===================================================================== Columns.get_column_sizes for (maxcol,) / (maxcol, maxrow)
+#
+# For these sizes every Columns contract of C08 / C09 / C01 uses the ASSUMED contract contracts/C08_focus.py: col_gcs (facts
+# `_gcs_facts` about each entry).  Here the real body is verified against exactly those facts (second contract, alias
+# `sized`): the two dicts keyed by the column index, the work lists `box` / `box_need_height` (ghost positions as above),
+# `max(1, *heights.values())`, and the three result tuples.  The widths are Columns.column_widths' (contracts/C19_columns.py).
+import copy as _copy  # noqa: E402
+
+from contracts.C08_focus import _gcs_facts  # noqa: E402
+from contracts.C19_columns import COLW, colw_wf, columns_column_widths  # noqa: E402
+
+COLW_KEY = CO + "Columns.column_widths"
+colw_as_callee = _copy.copy(columns_column_widths)
+colw_as_callee.modifies = ("_cache_maxcol", "_cache_column_widths")  # (what the body writes; the contract was never used at a call site)
+
+
+def _colw_ensures_at_call_site(old, s, a, result):
+    """column_widths' verified postconditions without `cached-list-is-the-result` (an identity of Python objects that
+    only makes sense inside the body)."""
+    # (of the verified postconditions -- contracts/C19_columns.py: _post -- only what get_column_sizes needs: one width
+    #  per kept column, none negative; the second as a fact to instantiate, not as a quantifier)
+    rs = result.seq if hasattr(result, "seq") else result
+    m = Q.seq_len(rs)
+    yield "one-width-per-kept-column", m <= n_items(old)
+    V.lazy_forall(0, m, lambda j: Q.seq_get(rs, j) >= 0)
+    yield "cache-refreshed", neg(V.opt_isnone(s._cache_maxcol))
+
+
+colw_as_callee.ensures_callee = _colw_ensures_at_call_site
+GCS_SIZED_LOCALS = dict(heights=MapOf(Int, Int), w_h_args=MapOf(Int, CSIZE))
+
+
+def _g0(v):
+    st = cur()
+    c, focus, size, i = v.self, v.focus, v.size, v.i_
+    W = PROTOCOLS["Widget"]
+    widths = v.widths
+    m = imin(Q.seq_len(widths), n_items(c))
+    Hm, Am = _mv(v.heights), _mv(v.w_h_args)
+    box, need = _mv(v.box), _mv(v.box_need_height)
+    A = arrs()
+    if isinstance(i, int):
+        A.setdefault("gBox", fresh_arr("gBox"))
+        A.setdefault("gNeed", fresh_arr("gNeed"))
+    elif st.ghost.get("inv_assuming"):
+        A["gBox"], A["gNeed"] = fresh_arr("gBox"), fresh_arr("gNeed")
+        st.ghost["gcs_head"] = View(dict(i=i, box_len=Q.seq_len(box), need_len=Q.seq_len(need), gBox=A["gBox"], gNeed=A["gNeed"]))
+    else:
+        h = st.ghost["gcs_head"]
+        A["gBox"] = z3.If(V._zb(Q.seq_len(box) > h.box_len), z3.Store(h.gBox, V._z(h.i), V._z(h.box_len)), h.gBox)
+        A["gNeed"] = z3.If(V._zb(Q.seq_len(need) > h.need_len), z3.Store(h.gNeed, V._z(h.i), V._z(h.need_len)), h.gNeed)
+    gBox, gNeed = A["gBox"], A["gNeed"]
+
+    def cls(x):
+        w, (kind, _amt, is_box) = item_at(c, x)
+        cb, cf = sizing_has(w, BOX), sizing_has(w, FLOW)
+        as_box = both(len(size) == 2, cb)
+        to_box = both(neg(as_box), is_box)
+        as_flow = both(neg(as_box), neg(is_box), cf)
+        as_pack = both(neg(as_box), neg(is_box), neg(cf), kind == "pack")
+        to_need = both(neg(as_box), neg(is_box), neg(cf), neg(kind == "pack"))
+        return w, as_box, to_box, as_flow, as_pack, to_need
+
+    def per_col(x):
+        w, as_box, to_box, as_flow, as_pack, to_need = cls(x)
+        seen = both(0 <= x, x < i)
+        wx = Q.seq_get(widths, x)
+        foc = both(focus, x == c._contents._focus)
+        now = either(as_box, as_flow, as_pack)
+        hv = ite(as_box, size[1] if len(size) == 2 else 0, ite(wx > 0, ite(as_flow, W.call_quiet(st, w, "rows", dict(size=(wx,), focus=foc)), W.call_quiet(st, w, "pack", dict(size=(), focus=foc))[1]), 0))
+        yield "heights-so-far", both(eq(Hm.has(x), both(seen, now)), implies(Hm.has(x), Hm.val(x) == hv))
+        av = Am.val(x)
+        a_is = either(both(as_box, V.struct_eq(av, (wx, size[1] if len(size) == 2 else 0))), both(as_flow, V.struct_eq(av, (wx,))), both(as_pack, V.struct_eq(av, ())))
+        yield "size-arguments-so-far", both(eq(Am.has(x), both(seen, now)), implies(Am.has(x), a_is))
+        pb, pn = sel(gBox, x), sel(gNeed, x)
+        yield "box-columns-are-listed", implies(both(seen, to_box), both(0 <= pb, pb < Q.seq_len(box), _sget(box, pb, 0) == x))
+        yield "columns-that-need-a-height-are-listed", implies(both(seen, to_need), both(0 <= pn, pn < Q.seq_len(need), _sget(need, pn, 0) == x))
+
+    def per_box_pos(q):
+        t = _sget(box, q, 0)
+        yield "box-entries", implies(both(0 <= q, q < Q.seq_len(box)), both(0 <= t, t < i, cls(t)[2], sel(gBox, t) == q))
+
+    def per_need_pos(q):
+        t = _sget(need, q, 0)
+        yield "need-entries", implies(both(0 <= q, q < Q.seq_len(need)), both(0 <= t, t < i, cls(t)[5], sel(gNeed, t) == q))
+
+    S = dict(col=per_col, boxpos=per_box_pos, needpos=per_need_pos)
+    if st.ghost.get("inv_assuming"):
+        for name, fn in S.items():
+            remember("G0:" + name, fn)
+        st.ghost["gcs_cls"] = cls
+    yield "no-more-entries-than-widths", i <= m
+    for x in (arb("gx"), child_index()):
+        yield from per_col(x)
+    yield from per_box_pos(arb("gqb"))
+    yield from per_need_pos(arb("gqn"))
+
+
+def _g1(v):
+    """The second loop (over box + box_need_height): k entries handled."""
+    st = cur()
+    c, focus, size, k = v.self, v.focus, v.size, v.i_
+    widths = v.widths
+    m = imin(Q.seq_len(widths), n_items(c))
+    E = v.at_entry
+    EH, EA = _mv(E.heights), _mv(E.w_h_args)
+    Hm, Am = _mv(v.heights), _mv(v.w_h_args)
+    box, need = _mv(v.box), _mv(v.box_need_height)
+    A = arrs()
+    gBox, gNeed = A["gBox"], A["gNeed"]
+    mh = v.max_height
+    cls = st.ghost["gcs_cls"]
+    nb = Q.seq_len(box)
+    for q in (k, k - 1):
+        recall("G0:boxpos", q)
+        recall("G0:needpos", q - nb)
+    terms = [arb("gx"), child_index()]
+    if st.ghost.get("inv_assuming"):
+        for mm in (Hm, Am):
+            terms.append(mm.card_range_axiom(0, m))
+    for q in (k, k - 1):
+        t = ite(q < nb, _sget(box, q, 0), _sget(need, q - nb, 0))
+        terms.append(t)
+
+    def per_col(x):
+        w, as_box, to_box, as_flow, as_pack, to_need = cls(x)
+        done = both(0 <= x, x < m, either(both(to_box, sel(gBox, x) < k), both(to_need, nb + sel(gNeed, x) < k)))
+        yield _rel("heights-of-the-columns-handled", Hm, EH, x, done, lambda nv: nv == mh)
+        yield _rel("size-arguments-of-the-columns-handled", Am, EA, x, done, lambda nv: V.struct_eq(nv, (Q.seq_get(widths, x), mh)))
+
+    if st.ghost.get("inv_assuming"):
+        remember("G1:col", per_col)
+    for x in terms:
+        recall("G0:col", x)
+        yield from per_col(x)
+
+
+@contract(GCS_KEY, property=("C01", "C09", "C19"), alias="sized", inline=CINL, replayable=False, local_maps=GCS_SIZED_LOCALS, setup=_setup_child,
+          contract_overrides={COLW_KEY: colw_as_callee})
+class columns_gcs_sized:
+    """get_column_sizes((maxcol,) / (maxcol, maxrow), focus): the facts the assumed contract col_gcs states about each entry,
+    proved of the real body (for an arbitrary entry `g_child`)."""
+
+    self_shape = COLW
+    params = dict(size=Union(Tup(Int), Tup(Int, Int)), focus=Bool)
+    result = GRS_RESULT
+    raises = ()
+    invariant = staticmethod(pile_ri)
+
+    def requires(s, a):
+        return both(colw_wf(s), *[both(0 <= d, d < DIMMAX) for d in a.size], mk_bool(s._cache_maxcol.isnone))
+
+    def ensures(old, s, a, result):
+        st = cur()
+        n = n_items(old)
+        Wt, Ht, At = result
+        m = Q.seq_len(Wt)
+        j = child_index()
+        recall("G0:col", j)
+        recall("G1:col", j)
+        yield "aligned-with-the-children", both(m <= n, Q.seq_len(Ht) == m, Q.seq_len(At) == m)
+        inr = both(0 <= j, j < m)
+        W = PROTOCOLS["Widget"]
+        child = item_at(old, j)[0]
+        foc = both(a.focus, old._contents._focus == j)
+        if not st.branch(inr):
+            return
+        w_j, h_j, a_j = Q.seq_get(Wt, j), Q.seq_get(Ht, j), Q.seq_get(At, j)
+        V.instantiate(j)  # (column_widths: no negative width, at j)
+        aj = st.force(a_j)  # (the arity of the entry's size argument: a three-way case split)
+        yield "non-negative", both(w_j >= 0, h_j >= 0)
+        if len(aj) >= 1:
+            yield "size-argument-carries-the-column-width", aj[0] == w_j
+        if len(aj) == 2 and len(a.size) == 2:
+            yield "box-children-get-the-box-height", aj[1] == a.size[1]
+        drawn = W.call_quiet(st, child, "pack", dict(size=(), focus=foc))[1] if len(aj) == 0 else (W.call_quiet(st, child, "rows", dict(size=aj, focus=foc)) if len(aj) == 1 else aj[1])
+        yield "height-is-what-the-child-renders-at-that-size", implies(w_j > 0, h_j == drawn)
+
+    loops = {0: Loop(invariant=_g0, shapes=dict(box=ListOf(Int), box_need_height=ListOf(Int))), 1: Loop(invariant=_g1)}
